@@ -1,10 +1,9 @@
 SPECIFICATION Spec
-CONSTANTS MaxCalls = 6  MaxIO = 14  TwoFaults = FALSE  MaxPolicyChanges = 0  Gen = FALSE
+CONSTANTS MaxCalls = 5  MaxIO = 10  TwoFaults = TRUE  MaxPolicyChanges = 0  Gen = FALSE
 INVARIANT NoViolation
 INVARIANT OnlyLibraryFailures
 INVARIANT CloseResetsNoHist
 INVARIANT ConnectedMeansOpen
 INVARIANT FallbackOrderAndSize
 PROPERTY Terminates
-PROPERTY ReopenWorks
 CHECK_DEADLOCK FALSE
